@@ -255,6 +255,57 @@ class StateReuseSpec(Spec):
 
 
 # --------------------------------------------------------------------------------------------------
+class LongTextSpec(Spec):
+    """the small alphabets never reach the tenth line of a text: multi-line texts of 1..14 lines whose got and want differ only
+    in trailing blanks / tabs on one line (or on all), or in one letter of one line, under all 32 settings"""
+    prop = 'C05'
+    name = 'long-texts'
+    title = 'texts of up to 14 lines differing in trailing whitespace or one letter on a given line'
+    max_len = 3
+    batch = 8
+
+    def __init__(self, nmax=14):
+        self.nmax = nmax
+        self.rule = ('texts of n = 1..%d lines x the line that differs (each, or all) x difference {trailing blanks on the got, trailing '
+                     'tab on the want, one letter changed} x 32 flag settings through check_output; trailing whitespace never matters, a '
+                     'changed letter always does; non-trivial = all' % nmax)
+
+    def histories(self, stats):
+        for n in range(1, self.nmax + 1):
+            for where in list(range(n)) + ['all']:
+                for kind in ('got-blanks', 'want-tab', 'letter'):
+                    if kind == 'letter' and where == 'all':
+                        continue
+                    yield (n, where, kind)
+
+    def hist_cost(self, hist):
+        return 0
+
+    def run_case(self, hist):
+        from xdoctest import checker
+        n, where, kind = hist
+        base = ['row %d of the table' % i for i in range(n)]
+        got, want = list(base), list(base)
+        idx = range(n) if where == 'all' else [where]
+        for i in idx:
+            if kind == 'got-blanks':
+                got[i] += '   '
+            elif kind == 'want-tab':
+                want[i] += '\t'
+            else:
+                got[i] = got[i].replace('row', 'rov')
+        g, w = '\n'.join(got) + '\n', '\n'.join(want)
+        atoms = []
+        for bits, fl, rs in runstates():
+            r = bool(checker.check_output(g, w, rs))
+            exp = kind != 'letter'
+            if r != exp:
+                atoms.append({'sig': 'long-text:%s' % ('false-mismatch:trailing-whitespace' if exp else 'false-match:letter'),
+                              'msg': '%d lines, line %s, %s: check_output = %s under %r' % (n, where, kind, r, fl)})
+                break
+        return {'atoms': atoms, 'outcome': 'ok' if not atoms else 'bad', 'case': {'lines': n, 'where': where, 'kind': kind}, 'nontrivial': 1, 'n': 32}
+
+
 class E2ERelSpec(Spec):
     prop = 'C05'
     name = 'e2e'
@@ -303,6 +354,6 @@ class E2ERelSpec(Spec):
 def specs(tier):
     if tier == 'thorough':
         return [RelSpec('W<=4x4', 'W', 4, 4), RelSpec('Q<=4x4', 'Q', 4, 4), RelSpec('M<=4x4', 'M', 4, 4),
-                RelSpec('E<=4x6', 'E', 4, 6), RelSpec('D<=4x5', 'D', 4, 5), RelSpec('F<=4x5', 'F', 4, 5), StateReuseSpec(4), E2ERelSpec()]
+                RelSpec('E<=4x6', 'E', 4, 6), RelSpec('D<=4x5', 'D', 4, 5), RelSpec('F<=4x5', 'F', 4, 5), StateReuseSpec(4), E2ERelSpec(), LongTextSpec(24)]
     return [RelSpec('W<=4x3', 'W', 4, 3), RelSpec('W<=3x4', 'W', 3, 4, only_new=(3, 3)),
-            RelSpec('Q<=3x3', 'Q', 3, 3), RelSpec('Q<=2x4', 'Q', 2, 4, only_new=(2, 3)), RelSpec('M<=3x3', 'M', 3, 3), RelSpec('E<=3x5', 'E', 3, 5), RelSpec('D<=3x4', 'D', 3, 4), RelSpec('F<=3x4', 'F', 3, 4), StateReuseSpec(3), E2ERelSpec()]
+            RelSpec('Q<=3x3', 'Q', 3, 3), RelSpec('Q<=2x4', 'Q', 2, 4, only_new=(2, 3)), RelSpec('M<=3x3', 'M', 3, 3), RelSpec('E<=3x5', 'E', 3, 5), RelSpec('D<=3x4', 'D', 3, 4), RelSpec('F<=3x4', 'F', 3, 4), StateReuseSpec(3), E2ERelSpec(), LongTextSpec(14)]
